@@ -527,7 +527,8 @@ func c14Errors() []c14Text {
 		out = append(out, c14Text{kind: "check", toks: gram.QueriesToks("check if", []gram.Body{{{P: &bp}}}), wantErr: true, label: b.label + ":check-predicate"})
 		out = append(out, c14Text{kind: "block", toks: append(gram.Pred{Name: "f", Terms: []gram.Leaf{l}}.Tokens(), ";"), wantErr: true, label: b.label + ":block-fact"})
 		// inside expressions: as an operand, as a method receiver, as a method argument, nested in parentheses
-		for pos, e := range []*gram.Node{
+		var chains []*gram.Node
+		for _, e := range []*gram.Node{
 			gram.Bin(rx.Equal, gram.Lf(gram.LVarX), gram.Lf(l)),
 			gram.Bin(rx.Equal, gram.Lf(l), gram.Lf(gram.LVarX)),
 			gram.Bin(rx.Contains, gram.Lf(l), gram.Lf(gram.LVarX)),
@@ -536,8 +537,34 @@ func c14Errors() []c14Text {
 			gram.Not(gram.Paren(gram.Bin(rx.And, gram.Lf(gram.LBool), gram.Paren(gram.Bin(rx.LessThan, gram.Lf(gram.LInt), gram.Lf(l)))))),
 			gram.Bin(rx.Union, gram.Bin(rx.Union, gram.Lf(gram.LSet), gram.Lf(gram.LSet)), gram.Lf(l)),
 		} {
+			chains = append(chains, e)
+		}
+		// every operand position of a three-operand chain at every precedence level, and both
+		// sides of a comparison whose operands are themselves sums and products
+		for _, op := range []rx.Binary{rx.Or, rx.And, rx.Add, rx.Sub, rx.Mul, rx.Div} {
+			ok := gram.Lf(gram.LVarX)
+			for pos := 0; pos < 3; pos++ {
+				xs := []*gram.Node{ok, ok, ok}
+				xs[pos] = gram.Lf(l)
+				chains = append(chains, gram.Bin(op, gram.Bin(op, xs[0], xs[1]), xs[2]))
+			}
+		}
+		for _, cmp := range []rx.Binary{rx.LessThan, rx.GreaterOrEqual, rx.Equal} {
+			chains = append(chains,
+				gram.Bin(cmp, gram.Bin(rx.Add, gram.Lf(gram.LVarX), gram.Lf(l)), gram.Lf(gram.LInt)),
+				gram.Bin(cmp, gram.Bin(rx.Mul, gram.Lf(l), gram.Lf(gram.LVarX)), gram.Lf(gram.LInt)),
+				gram.Bin(cmp, gram.Lf(gram.LInt), gram.Bin(rx.Mul, gram.Bin(rx.Mul, gram.Lf(gram.LVarX), gram.Lf(l)), gram.Lf(gram.LInt))),
+			)
+		}
+		chains = append(chains,
+			gram.Bin(rx.Prefix, gram.Lf(gram.LVarX), gram.Lf(l)),
+			gram.Bin(rx.Intersection, gram.Lf(gram.LSet), gram.Lf(l)),
+			gram.Bin(rx.Contains, gram.Bin(rx.Union, gram.Lf(gram.LSet), gram.Lf(l)), gram.Lf(gram.LVarX)),
+			gram.Not(gram.Lf(l)),
+		)
+		for pos, e := range chains {
 			lab := fmt.Sprintf("%s:in-expression-%d", b.label, pos)
-			body := gram.Body{{P: &px}, {E: e}}
+			body := gram.Body{{P: &px}, {E: gram.Minimal(e)}}
 			out = append(out,
 				c14Text{kind: "check", toks: gram.QueriesToks("check if", []gram.Body{body}), wantErr: true, label: lab},
 				c14Text{kind: "rule", toks: gram.RuleToks(gram.Pred{Name: "h", Terms: []gram.Leaf{gram.LVarX}}, body), wantErr: true, label: lab},
@@ -568,7 +595,7 @@ func init() {
 		ID:           "C14",
 		Level:        "exploration",
 		Technique:    "bounded-exhaustive enumeration of derivations of the documented grammar (expression syntax trees with explicit parenthesisation, frames, layouts) with the generator's own syntax tree as the reference denotation; exhaustive single-token corruptions for the no-panic clause",
-		Rule:         "expressions: every operator (11 infix, 6 binary methods, length, !) on every pair of the 8 term kinds; every tree of depth 2 (thorough: also depth 3 with a depth-2 subtree on either side) over all 19 operators; each rendered with the minimal parentheses the documented precedence/associativity table requires, fully parenthesised, and minimal plus one redundant pair at every node; 2-4 layouts (single spaces, no spaces where the lexer allows, newlines with a leading comment, tabs); each in a check, a rule and a policy. frames: facts with every ground term kind (incl. bound parameters, sets), rules and queries with 1-3 elements, checks and policies with 1-3 'or' alternatives, blocks and authorizers with 0-3 elements. errors: unbound parameter, malformed date, malformed byte literal, variable in a set, unbound parameter in a set - in a fact, a rule head, a body predicate, a check, a block, and at 7 positions inside expressions - and chained comparisons. corruptions: every single-token deletion, duplication, adjacent swap and replacement by one of 30 token classes of a sub-corpus. Oracle: the parsed structure equals the tree's denotation (term types and values, parameters substituted, postfix operators with Parens exactly where the text has parentheses, 'or' as separate queries); the stated error cases return an error; no parse function panics; every successfully parsed element is added to a Builder, a BlockBuilder and an authorizer and authorized without panic. Non-trivial = a grammatical text parsed as denoted; distinct by construction.",
+		Rule:         "expressions: every operator (11 infix, 6 binary methods, length, !) on every pair of the 8 term kinds; every tree of depth 2 (thorough: also depth 3 with a depth-2 subtree on either side) over all 19 operators; each rendered with the minimal parentheses the documented precedence/associativity table requires, fully parenthesised, and minimal plus one redundant pair at every node; 2-4 layouts (single spaces, no spaces where the lexer allows, newlines with a leading comment, tabs); each in a check, a rule and a policy. frames: facts with every ground term kind (incl. bound parameters, sets), rules and queries with 1-3 elements, checks and policies with 1-3 'or' alternatives, blocks and authorizers with 0-3 elements. errors: unbound parameter, malformed date, malformed byte literal, variable in a set, unbound parameter in a set - in a fact, a rule head, a body predicate, a check, a block, and at 37 positions inside expressions (every operand position of a three-operand chain at every precedence level, both sides of comparisons over sums and products, method receivers and arguments, under ! and parentheses) - and chained comparisons. corruptions: every single-token deletion, duplication, adjacent swap and replacement by one of 30 token classes of a sub-corpus. Oracle: the parsed structure equals the tree's denotation (term types and values, parameters substituted, postfix operators with Parens exactly where the text has parentheses, 'or' as separate queries); the stated error cases return an error; no parse function panics; every successfully parsed element is added to a Builder, a BlockBuilder and an authorizer and authorized without panic. Non-trivial = a grammatical text parsed as denoted; distinct by construction.",
 		Assume:       []string{"names are identifiers that do not begin with a lexer keyword (true, false, prefix, suffix, matches, length, contains): GRAMMAR.md does not define the name syntax", "the reference denotation is the generator's syntax tree; the documented precedence table is transcribed in internal/gram"},
 		Procs:        func(string) int { return 16 },
 		SingleThread: true,
